@@ -273,8 +273,11 @@ func (c *decodeCtx) unmarshalerOf(t types.Type) *types.Func {
 	}
 	ms := c.i.prog.MethodSets.MethodSet(types.NewPointer(t))
 	sel := ms.Lookup(nil, name)
+	if sel == nil && !c.yaml {
+		// encoding.TextUnmarshaler (e.g. netip.Addr): JSON strings go through UnmarshalText
+		sel = ms.Lookup(nil, "UnmarshalText")
+	}
 	if sel == nil {
-		// exported methods have no package qualifier; Lookup(nil, ...) finds them
 		return nil
 	}
 	f, _ := sel.Obj().(*types.Func)
@@ -477,7 +480,21 @@ func (c *decodeCtx) decodeBasic(n *docNode, t types.Type, b *types.Basic, cell *
 }
 
 func (c *decodeCtx) decodeIface(n *docNode, cell *value) {
+	c.decodeIfaceD(n, cell, 0)
+}
+
+// decodeIfaceD: untyped values are explored to a bounded nesting depth (param D, default 1
+// level of arrays below an untyped position); deeper containers are outside the bound.
+func (c *decodeCtx) decodeIfaceD(n *docNode, cell *value, depth int) {
 	x := c.i.x
+	maxD := 1
+	if v, ok := x.params["D"]; ok {
+		maxD = v
+	}
+	if depth >= maxD {
+		// stated bound: no arrays below this nesting depth at untyped positions
+		x.assumeQuiet(symNot(n.kindIs(kArray)))
+	}
 	// the dynamic type is structural: fork on the kind
 	switch {
 	case x.decide(n.kindIs(kAbsent)):
@@ -506,7 +523,7 @@ func (c *decodeCtx) decodeIface(n *docNode, cell *value) {
 			el := n.child(fmt.Sprint(k))
 			x.assumeQuiet(symNot(el.kindIs(kAbsent)))
 			out[k] = iface{}
-			c.decodeIface(el, &out[k])
+			c.decodeIfaceD(el, &out[k], depth+1)
 		}
 		*cell = iface{t: c.i.m.sliceOfAny(), v: out}
 	default:
